@@ -22,7 +22,7 @@ STRUCTS = {
     'P2PSession': ['C01', 'C02', 'C03', 'C04', 'C06', 'C07', 'C09', 'C10', 'C11', 'C12', 'C15', 'C16', 'C17', 'C18'],
     'UdpProtocol': ['C01', 'C05', 'C07', 'C08', 'C10', 'C12', 'C15', 'C18'],
     'SyncLayer': ['C01', 'C02', 'C03', 'C04', 'C11', 'C13'],
-    'InputQueue': ['C01', 'C03', 'C04', 'C11'],
+    'InputQueue': ['C01', 'C03', 'C04', 'C11', 'C13'],
     'SavedStates': ['C02', 'C13'],
     'GameState': ['C02', 'C09', 'C13'],
     'SpectatorSession': ['C05', 'C06', 'C12'],
@@ -214,9 +214,12 @@ def call_rule_for(pid):
         ob.require_count(n, 1, 'reviewed calls of state-writing functions for %s' % pid)
         debug_purity(W, ob)
         new_call_rule_for(pid)(W, ob)
+        carried_rule_for(pid)(W, ob)
     return rule
 
 
+STD_MUTATORS = {'drain', 'clear', 'pop', 'pop_front', 'pop_back', 'remove', 'retain', 'truncate', 'insert', 'push', 'push_back', 'push_front', 'extend', 'append', 'take',
+                'replace', 'swap', 'split_off', 'swap_remove', 'entry', 'get_or_insert_with', 'sort', 'sort_unstable', 'dedup', 'resize', 'set', 'fetch_add'}
 DEBUG_ONLY = ('debug_assert', 'debug_assert_eq', 'debug_assert_ne', 'trace', 'debug', 'info', 'warn', 'error', 'event')
 
 
@@ -249,7 +252,8 @@ def debug_purity(W, ob):
             muts = [i for i, ty in enumerate(t.arg_tys or []) if ty.startswith('&mut ') and t.args[i].is_place() and
                     W.ctx(f).ap_carry(t.args[i].place).root[0] in ('arg', 'upvar')]
             host = f.parent if f.kind == 'closure' and f.parent else f.path
-            if (eff and muts) or (muts and not tg and (t.callee.crate or '') not in ('tracing', 'tracing_core', 'core', 'std', 'alloc')):
+            std_mut = bool(muts) and not tg and last_seg(t.callee.best or '') in STD_MUTATORS
+            if (eff and muts) or std_mut or (muts and not tg and (t.callee.crate or '') not in ('tracing', 'tracing_core', 'core', 'std', 'alloc')):
                 ob.fail('debug-only-effect|%s|%s' % (short(host), short(t.callee.best or '?')),
                         '%s calls %s inside a debug_assert!/tracing macro: the call changes state, but it is compiled out (or not evaluated) in builds without debug assertions / '
                         'without a subscriber at that level -- debug and release builds run different programs' % (short(host), short(t.callee.best or '?')), where(f, t.line))
@@ -475,7 +479,8 @@ def impl_rule(W, ob):
     PINS = {'<PredictRepeatLast as InputPredictor>::predict': ('arg1', 'PredictRepeatLast repeats the previous input'),
             '<PredictDefault as InputPredictor>::predict': ('Default::default()', 'PredictDefault predicts the default input'),
             '<network::messages::InputAck as std::default::Default>::default': ('InputAck{ack_frame: NULL_FRAME}', 'a blank ack acknowledges nothing'),
-            '<time_sync::TimeSync as std::default::Default>::default': ('TimeSync{local: repeat(0), remote: repeat(0)}', 'time sync starts from zero advantage')}
+            '<time_sync::TimeSync as std::default::Default>::default': ('TimeSync{local: repeat(0), remote: repeat(0)}', 'time sync starts from zero advantage'),
+            '<sync_layer::GameStateCell as std::clone::Clone>::clone': ('GameStateCell{0: self.0}', 'cloning a cell shares the saved state (the Arc), it does not copy it: the request handed to the user and the ring slot are one cell')}
     byp = {f.path: f for f in W.fx.fn_list}
     for path, (want, why) in PINS.items():
         f = byp.get(path) or next((g for q, g in byp.items() if q.endswith(path.split('::', 1)[-1]) and path.split(' as ')[0].split('::')[-1] in q), None)
@@ -542,4 +547,112 @@ def new_call_rule_for(pid):
                      '%s now calls %s, which it did not when the call inventory was reviewed (tables/call_edges_all.json): a value takes a new route or an effect gets a new trigger'
                      % (x, y[7:] if y.startswith('extern ') else y), None)
         ob.require_count(n, 3, 'calls between reviewed functions for %s' % pid)
+    return rule
+
+
+# ---------------------------------------------------------------------------------------------------------------------------------------
+# constants and type shapes
+# ---------------------------------------------------------------------------------------------------------------------------------------
+def compute_consts(W):
+    res = {}
+    for p, c in W.fx.consts.items():
+        if '::_' in p or p.endswith('::_'):
+            continue
+        name = p.split('::')[-1]
+        if 'val' in c:
+            res[name] = '%s %s' % (c['ty'], c['val'])
+        elif 'Duration' in c.get('ty', ''):
+            try:
+                res[name] = 'Duration %d ms' % duration_const_ms(W, name)
+            except AnchorMissing:
+                res[name] = c['ty']
+        else:
+            res[name] = c.get('ty', '?')
+    return res
+
+
+def compute_shapes(W):
+    res = {}
+    for p, a in W.fx.adts.items():
+        if '::_' in p or p.split('::')[-1].startswith('__') or 'tests' in p:
+            continue
+        res[p.replace('ggrs::', '', 1)] = [[v['name']] + ['%s: %s' % (f['name'], f['ty']) for f in v['fields']] for v in a['variants']]
+    return res
+
+
+def shape_rule(W, ob):
+    """named constants keep their reviewed values and every type of the crate keeps its reviewed shape (variants in order, fields in order, field types): a sentinel, a ring
+    size, a default or a wire constant changed by value; a checksum or a frame stored in a narrower type; a variant added, removed or reordered"""
+    tab = _tab('shapes.json')
+    cur_c, cur_s = compute_consts(W), compute_shapes(W)
+    n = 0
+    for name, v in sorted(cur_c.items()):
+        n += 1
+        if name not in tab['consts']:
+            ob.fail('const|%s|new' % name, 'constant `%s` = %s is not in the reviewed table (tables/shapes.json)' % (name, v), None)
+        else:
+            ob.check(tab['consts'][name] == v, 'const|%s|value' % name, '%s = %s (reviewed)' % (name, v),
+                     'constant `%s` is now %s (reviewed: %s): every site that uses it as a ring size, a bound, a sentinel, a default or a duration changed with it' % (name, v, tab['consts'][name]), None)
+    for name in tab['consts']:
+        if name not in cur_c:
+            ob.fail('const|%s|missing' % name, 'constant `%s` no longer exists (anchor)' % name, None)
+    for p, shape in sorted(cur_s.items()):
+        n += 1
+        if p not in tab['shapes']:
+            ob.fail('shape|%s|new' % p, 'type `%s` is not in the reviewed table (tables/shapes.json): a new type (new state, a new representation) has not been reviewed' % p, None)
+        else:
+            ob.check(tab['shapes'][p] == shape, 'shape|%s' % p, '%s has its reviewed shape' % p,
+                     'type `%s` changed shape: now %s, reviewed %s -- a field or variant was added, removed, reordered or retyped' % (p, json.dumps(shape)[:300], json.dumps(tab['shapes'][p])[:300]), None)
+    ob.require_count(n, 60, 'constants and types')
+
+
+# ---------------------------------------------------------------------------------------------------------------------------------------
+# loop-carried state
+# ---------------------------------------------------------------------------------------------------------------------------------------
+def compute_carried(W):
+    """{function: sorted list of the types of the locals that some loop of the function carries from one iteration to the next}"""
+    from . import liveness
+    res = {}
+    for f in W.fns():
+        if f.derived or 'tests' in f.path or 'sessions::builder' in f.path:
+            continue
+        loops = W.guards(f).loop_by_header()
+        if not loops:
+            continue
+        tys = []
+        for h, body in loops.items():
+            for l in liveness.carried(f, h, body):
+                if l == 0:
+                    continue
+                ty = f.local_ty(l) or '?'
+                if l <= f.argc and f.local_name(l) == 'self':
+                    continue
+                if ty.startswith('std::ops::Range') or any(x in ty for x in ('::Iter<', '::IterMut<', 'std::iter::', '::Values<', '::ValuesMut<', '::Keys<', 'IntoIter<', 'Drain<',
+                                                                            'impl Iterator', '::Chunks', '::Windows<')):
+                    continue        # the loop's own iterator: how the loop is spelled, not state
+                tys.append(ty)
+        host = short(f.parent if f.kind == 'closure' and f.parent else f.path)
+        if tys:
+            res.setdefault(host, []).extend(tys)
+    return {k: sorted(v) for k, v in res.items()}
+
+
+def carried_rule_for(pid):
+    """what a loop carries from one iteration to the next is reviewed state: per function the multiset of the types of its loop-carried locals (liveness at the loop
+    header; no names) is contained in the reviewed multiset.  An accumulator whose `let` moved from inside a loop to in front of it -- the per-player `queue_connected`
+    flag, the varint `shift` -- adds a carried `bool` / `u32` and is reported; renaming a local or rewriting the loop with iterators does not."""
+    def rule(W, ob):
+        import collections
+        tab = _tab('carried.json')['functions']
+        cur = compute_carried(W)
+        n = 0
+        for fn, tys in sorted(cur.items()):
+            if pid not in CALLER_PROPS.get(fn.split('::')[0], []):
+                continue
+            n += 1
+            extra = collections.Counter(tys) - collections.Counter(tab.get(fn, []))
+            ob.check(not extra or fn not in tab, 'carried|%s' % fn, '%s: its loops carry only reviewed state (%d locals)' % (fn, len(tys)),
+                     '%s: a loop now carries %s from one iteration to the next, which it did not when reviewed (tables/carried.json): a value that used to be re-initialised per element / per '
+                     'record / per player survives into the next one' % (fn, ', '.join('%d x %s' % (c, t) for t, c in extra.items())), None)
+        ob.require_count(n, 1, 'functions with loops for %s' % pid)
     return rule
